@@ -1,6 +1,223 @@
-/- C09 — property theorems.  Stub. -/
-import CBV.Model.C09
+/-
+C09 — property theorems.  Translating, rotating, scaling or mirroring an entity is the affine similarity
+applied to every point cell exactly once (direction cells: linear part only, reversed by a mirror),
+whatever the shape of the part tree, provided no leaf is shared (NoAlias); default origins follow the entity;
+a copy is an equal entity on fresh cells.
+-/
+import CBV.Lemmas.C09Algebra
+import CBV.Lemmas.C09Tree
+import CBV.Lemmas.C09Center
 
 namespace CBV.C09
+open CBV
+
+set_option linter.unusedSimpArgs false
+
+/-! ### T_C09_point — the four primitives on a point are the affine map they are named after -/
+
+/-- every resolved transformation acts on points as an affine map with linear part `t.lin` -/
+theorem T_C09_point_affine (t : RT) :
+    (∀ p q, t.pt p - t.pt q = t.lin (p - q)) ∧ (∀ u v, t.lin (u + v) = t.lin u + t.lin v) ∧
+      (∀ c v, t.lin (V3.smul c v) = V3.smul c (t.lin v)) :=
+  ⟨RT.pt_sub t, RT.lin_add t, RT.lin_smul t⟩
+
+/-- … which is a similarity: distances are multiplied by the ratio (1 except for `scale`) … -/
+theorem T_C09_point_similarity (t : RT) (ht : t.Valid) (p q : V3) :
+    V3.norm2 (t.pt p - t.pt q) = t.ratio2 * V3.norm2 (p - q) := by
+  simp only [V3.norm2, RT.pt_sub, RT.lin_dot t ht]
+
+/-- … angles between directions are kept, orientation is kept by translate/rotate/scale and reversed by mirror -/
+theorem T_C09_point_orientation (t : RT) (ht : t.Valid) (u v : V3) :
+    V3.dot (t.lin u) (t.lin v) = t.ratio2 * V3.dot u v ∧
+      V3.cross (t.lin u) (t.lin v) = V3.smul t.sigma (t.lin (V3.cross u v)) :=
+  ⟨RT.lin_dot t ht u v, RT.lin_cross t ht u v⟩
+
+example : (RT.rotate 2 ⟨1, 2, 2⟩ ⟨1, 0, 3⟩).Valid ∧ (RT.mirror ⟨1, -3, 2⟩ ⟨0, 1, 1⟩).Valid := by
+  constructor <;> simp only [RT.Valid, V3.dot] <;> norm_num
+
+theorem T_C09_point_translate (d p : V3) : (RT.translate d).pt p = p + d := rfl
+
+/-- `rotate` keeps every point of the axis line through the origin … -/
+theorem T_C09_point_rotate_axis (w : Rat) (a o : V3) (s : Rat) :
+    rotP w a o (o + V3.smul s a) = o + V3.smul s a := by
+  have h : o + V3.smul s a - o = V3.smul s a := by apply V3.ext' <;> v3_unfold <;> ring
+  unfold rotP
+  rw [h, rotLin_smul, rotLin_axis, add_comm']
+
+/-- … and turns every direction normal to the axis by the angle `θ` with `cos θ = (w²−|a|²)/(w²+|a|²)`,
+    `sin θ = 2w|a|/(w²+|a|²)`, counter-clockwise about `a`: that is `θ = 2·atan2(|a|, w)`, the angle the harness
+    passes to the implementation -/
+theorem T_C09_point_rotate_angle (w : Rat) (a v : V3) (hN : w * w + V3.dot a a ≠ 0) (hperp : V3.dot a v = 0) :
+    (w * w + V3.dot a a) * V3.dot v (rotLin w a v) = (w * w - V3.dot a a) * V3.dot v v ∧
+      V3.smul (w * w + V3.dot a a) (V3.cross v (rotLin w a v)) = V3.smul (2 * w * V3.dot v v) a :=
+  ⟨rotLin_cos w a v hN hperp, rotLin_sin w a v hN hperp⟩
+
+example : (2 : Rat) * 2 + V3.dot ⟨1, 2, 2⟩ ⟨1, 2, 2⟩ ≠ 0 ∧ V3.dot ⟨1, 2, 2⟩ ⟨2, 1, -2⟩ = 0 := by
+  constructor <;> simp only [V3.dot] <;> norm_num
+
+theorem T_C09_point_scale (r : Rat) (o p : V3) : scaleP r o p - o = V3.smul r (p - o) := by
+  apply V3.ext' <;> v3_unfold <;> ring
+
+/-- `mirror` is an involution that fixes the plane through `o` normal to `n` pointwise and sends `o + n` to `o − n` -/
+theorem T_C09_point_mirror (n o p : V3) (hn : V3.dot n n ≠ 0) :
+    mirP n o (mirP n o p) = p ∧ (V3.dot (p - o) n = 0 → mirP n o p = p) ∧ mirP n o (o + n) = o - n := by
+  refine ⟨?_, ?_, ?_⟩
+  · have h : mirP n o p - o = mirLin n (p - o) := by apply V3.ext' <;> v3_unfold <;> ring
+    show mirLin n (mirP n o p - o) + o = p
+    rw [h, mirLin_invol n _ hn, sub_add_cancel']
+  · intro h
+    show mirLin n (p - o) + o = p
+    rw [mirLin_inplane n _ h, sub_add_cancel']
+  · have h : o + n - o = n := by apply V3.ext' <;> v3_unfold <;> ring
+    show mirLin n (o + n - o) + o = o - n
+    rw [h, mirLin_normal n hn]
+    apply V3.ext' <;> v3_unfold <;> ring
+
+example : V3.dot (⟨1, -3, 2⟩ : V3) ⟨1, -3, 2⟩ ≠ 0 := by simp only [V3.dot]; norm_num
+
+/-- direction quantities (the axis of an `Angle` edge, the normal of a `CircleCurve`) are rotated / reflected but
+    not displaced: their image does not depend on the displacement, the origin or the ratio, and they keep
+    their length -/
+theorem T_C09_direction (v : V3) :
+    (∀ d, (RT.translate d).dir v = v) ∧ (∀ r o, (RT.scale r o).dir v = v) ∧
+      (∀ w a o o', (RT.rotate w a o).dir v = (RT.rotate w a o').dir v) ∧
+      (∀ n o o', (RT.mirror n o).dir v = (RT.mirror n o').dir v) ∧
+      (∀ t : RT, t.Valid → V3.dot (t.dir v) (t.dir v) = V3.dot v v) := by
+  refine ⟨fun _ => rfl, fun _ _ => rfl, fun _ _ _ _ => rfl, fun _ _ _ => rfl, ?_⟩
+  intro t ht
+  cases t <;> simp only [RT.dir]
+  · exact rotLin_dot _ _ _ _ ht
+  · rw [dot_neg_neg]; exact mirLin_dot _ _ _ ht
+
+/-- a reflection turns the rotation about `a` into the rotation about the reversed reflected axis: mirroring the
+    point data and giving the axis cell `−(mirLin n a)` (what `AxisVector.mirror` does) reproduces the mirrored arc /
+    circle for every parameter value -/
+theorem T_C09_mirror_axial (n o : V3) (w : Rat) (a c p : V3) (hn : V3.dot n n ≠ 0) :
+    mirP n o (rotP w a c p) = rotP w ((RT.mirror n o).dir a) (mirP n o c) (mirP n o p) :=
+  mir_rot_conj n o w a c p hn
+
+/-! ### T_C09_tree — recursive delegation over an arbitrary part tree -/
+
+/-- no leaf object is reachable twice through `.parts` (validated on the real objects with `id()`) -/
+def NoAlias (e : Ent) : Prop := ((visitsE e).map Prod.fst).Nodup
+
+/-- every leaf refers to an existing cell -/
+def InHeap (e : Ent) (h : Heap) : Prop := ∀ v ∈ visitsE e, v.1 < h.length
+
+/-- Whatever the tree, a method call changes every point cell by the affine map, every direction cell by the
+    direction action, each exactly once, and nothing else. -/
+theorem T_C09_tree (t : RT) (e : Ent) (h : Heap) (hna : NoAlias e) (hin : InHeap e h) :
+    (∀ i, (i, false) ∈ visitsE e → Heap.get (applyE t e h).2 i = t.pt (Heap.get h i)) ∧
+    (∀ i, (i, true) ∈ visitsE e → Heap.get (applyE t e h).2 i = t.dir (Heap.get h i)) ∧
+    (∀ i, i ∉ (visitsE e).map Prod.fst → Heap.get (applyE t e h).2 i = Heap.get h i) ∧
+    (applyE t e h).2.length = h.length := by
+  rw [applyE_heap]
+  refine ⟨?_, ?_, ?_, runV_length t _ h⟩
+  · intro i hi
+    have := runV_once t (visitsE e) h i false hna hi (hin _ hi)
+    simpa using this
+  · intro i hi
+    have := runV_once t (visitsE e) h i true hna hi (hin _ hi)
+    simpa using this
+  · intro i hi
+    exact runV_untouched t _ h i hi
+
+/-- a face with an arc, a spline (array of two rows) and an Angle edge: 4 + 1 + 2 + 1 distinct cells -/
+def sampleFace : Ent :=
+  .node .face 0 [.pt 0, .pt 1, .pt 2, .pt 3, .node .edge 0 [.pt 4],
+    .node .spline 0 [.node .dcurve 0 [.arr [5, 6]]], .node .angle (1 / 2) [.dir 7], .node .edge 0 []]
+
+example : NoAlias sampleFace ∧ InHeap sampleFace (List.replicate 8 V3.zero) := by
+  constructor
+  · unfold NoAlias; decide
+  · unfold InHeap; decide
+
+/-- the same holds for the transformation list (the parts are transformed directly) -/
+theorem T_C09_tree_list (t : RT) (k : Kind) (a : Rat) (ch : List Ent) (h : Heap)
+    (hna : NoAlias (.node k a ch)) (hin : InHeap (.node k a ch) h) :
+    (∀ i, (i, false) ∈ visitsL ch → Heap.get (applyL t ch h).2 i = t.pt (Heap.get h i)) ∧
+    (∀ i, (i, true) ∈ visitsL ch → Heap.get (applyL t ch h).2 i = t.dir (Heap.get h i)) ∧
+    (∀ i, i ∉ (visitsL ch).map Prod.fst → Heap.get (applyL t ch h).2 i = Heap.get h i) := by
+  have h1 : visitsE (.node k a ch) = visitsL ch := by simp [visitsE]
+  have := T_C09_tree t (.node k a ch) h hna hin
+  simp only [applyE, h1] at this
+  exact ⟨this.1, this.2.1, this.2.2.1⟩
+
+/-- translate / rotate / scale never change the tree; -/
+theorem T_C09_tree_shape (t : RT) (ht : t.isMirror = false) (e : Ent) (h : Heap) : (applyE t e h).1 = e :=
+  applyE_tree t ht e h
+
+/-- `Operation.mirror` mirrors the six parts, swaps the two faces and reverses the data of the four side edges
+    (so that each side edge still describes the mirror image of its curve, now from the other end) -/
+theorem T_C09_op_mirror (n o : V3) (a : Rat) (b t s0 s1 s2 s3 : Ent) (h : Heap) :
+    ∃ b' t' s0' s1' s2' s3' h',
+      applyL (.mirror n o) [b, t, s0, s1, s2, s3] h = ([b', t', s0', s1', s2', s3'], h') ∧
+      applyE (.mirror n o) (.node .op a [b, t, s0, s1, s2, s3]) h =
+        (.node .op a [t', b', reverseE s0', reverseE s1', reverseE s2', reverseE s3'], h') := by
+  simp only [applyE, applyL, RT.isMirror, invertOp, List.map, Bool.true_and, beq_self_eq_true, if_true]
+  exact ⟨_, _, _, _, _, _, _, rfl, rfl⟩
+
+/-- reversing the data of an Angle or Spline/PolyLine edge twice gives it back -/
+theorem T_C09_reverse_involutive (a a2 : Rat) (ch : List Ent) (is : List Nat) :
+    reverseE (reverseE (.node .angle a ch)) = .node .angle a ch ∧
+      reverseE (reverseE (.node .spline a [.node .dcurve a2 [.arr is]])) = .node .spline a [.node .dcurve a2 [.arr is]] := by
+  simp [reverseE]
+
+/-- without NoAlias the statement is false: a leaf that is shared by two parts (the `Face` that the lofts of a
+    sphere shared before the repair) is moved twice -/
+theorem T_C09_alias_counterexample :
+    let e : Ent := .node .shape 0 [.pt 0, .pt 0]
+    ¬ NoAlias e ∧
+      Heap.get (applyE (.translate ⟨1, 0, 0⟩) e [⟨5, 5, 5⟩]).2 0 = ⟨7, 5, 5⟩ := by
+  constructor
+  · unfold NoAlias; decide
+  · simp only [applyE, applyL, RT.pt, Heap.get]
+    apply V3.ext' <;> (simp [RT.pt]; norm_num)
+
+/-! ### T_C09_compose — transformation lists and default origins -/
+
+/-- a list (or a chain of method calls) is the composition of its steps, each resolved against the state the
+    previous steps left behind -/
+theorem T_C09_compose (viaMethod : Bool) (t : Tr × Option V3) (ts : List (Tr × Option V3)) (s : Ent × Heap) :
+    runSteps viaMethod (t :: ts) s =
+      ((if viaMethod then method t.1 t.2 s else transformStep t.1 t.2 s).bind (runSteps viaMethod ts)) := by
+  simp only [runSteps, List.foldlM_cons]
+  rfl
+
+/-- every modelled centre is an average of points, and an affine map commutes with averages: -/
+theorem T_C09_center_equivariant (t : RT) (ps : List V3) (hne : ps ≠ []) : t.pt (avg ps) = avg (ps.map t.pt) :=
+  RT.pt_avg t ps hne
+
+/-- hence the default origin of the next step is the image of the previous centre; spelled out for a face with
+    four distinct corner cells (any edge data): after any method call the centre of the face is the image of its
+    centre -/
+theorem T_C09_compose_face (t : RT) (a : Rat) (i0 i1 i2 i3 : Nat) (edges : List Ent) (h : Heap)
+    (hna : NoAlias (.node .face a (.pt i0 :: .pt i1 :: .pt i2 :: .pt i3 :: edges)))
+    (hin : InHeap (.node .face a (.pt i0 :: .pt i1 :: .pt i2 :: .pt i3 :: edges)) h) :
+    let e : Ent := .node .face a (.pt i0 :: .pt i1 :: .pt i2 :: .pt i3 :: edges)
+    center (applyE t e h).2 none (applyE t e h).1 = (center h none e).map t.pt := by
+  intro e
+  have ht := T_C09_tree t e h hna hin
+  have hv : ∀ i, i ∈ [i0, i1, i2, i3] → (i, false) ∈ visitsE e := by
+    intro i hi
+    simp only [e, visitsE, visitsL, List.mem_append, List.mem_cons, List.not_mem_nil, or_false, List.cons_append,
+      List.nil_append, Prod.mk.injEq, and_true] at hi ⊢
+    rcases hi with h | h | h | h <;> simp [h]
+  have g0 := ht.1 i0 (hv i0 (by simp))
+  have g1 := ht.1 i1 (hv i1 (by simp))
+  have g2 := ht.1 i2 (hv i2 (by simp))
+  have g3 := ht.1 i3 (hv i3 (by simp))
+  have hshape : ∃ es', (applyE t e h).1 = .node .face a (.pt i0 :: .pt i1 :: .pt i2 :: .pt i3 :: es') := by
+    simp only [e, applyE, applyL]
+    cases hm : t.isMirror <;> simp
+  obtain ⟨es', hs⟩ := hshape
+  rw [hs]
+  simp only [center, faceCenter, facePts, children, List.take, List.filterMap, ptOf, Option.map, e]
+  rw [g0, g1, g2, g3]
+  rw [T_C09_center_equivariant t _ (by simp)]
+  simp
+
+/-- an operation keeps its centre under `mirror` although its faces are swapped -/
+theorem T_C09_center_swap (ps qs : List V3) : avg (ps ++ qs) = avg (qs ++ ps) := avg_append_comm ps qs
 
 end CBV.C09
